@@ -141,7 +141,7 @@ Qed.
 Lemma wf_addWriter hm t x : wf x -> In t x.(clients) -> ~ In t x.(wr) -> wf (addWriter hm t x).
 Proof.
   intros H Ht Hw. inv_wf H. unfold addWriter.
-  destruct (upd_fields hm t (mk (clients x) (bufs x) (closeq x) (rd x) (wr x ++ [t]) (add t (tg x)) (mp x)))
+  destruct (upd_fields hm t (mk (clients x) (bufs x) (closeq x) (rd x) (wr x ++ [t]) (add t (tg x)) (mp x) (lis x)))
     as (E1 & E2 & E3 & E4 & E5).
   constructor; rewrite ?E1, ?E2, ?E3, ?E4, ?E5; simpl; auto. apply NoDup_snoc; auto.
   intros s Hs. apply tabs_upd in Hs.
@@ -151,14 +151,14 @@ Qed.
 Lemma wf_addReader hm t x : wf x -> ~ In t x.(clients) -> wf (set_clients (x.(clients) ++ [t]) (addReader hm t x)).
 Proof.
   intros H Ht. pose proof H as H0. inv_wf H. unfold addReader.
-  destruct (upd_fields hm t (mk (clients x) (bufs x) (closeq x) (rd x ++ [t]) (wr x) (add t (tg x)) (mp x)))
+  destruct (upd_fields hm t (mk (clients x) (bufs x) (closeq x) (rd x ++ [t]) (wr x) (add t (tg x)) (mp x) (lis x)))
     as (E1 & E2 & E3 & E4 & E5).
   assert (Hr : ~ In t (rd x)) by (intro; apply Ht, Hsub; unfold tabs; tauto).
   constructor; simpl; rewrite ?E1, ?E2, ?E3, ?E4, ?E5; simpl; auto.
   - apply NoDup_snoc; auto.
   - apply NoDup_snoc; auto.
   - intros s Hs. rewrite in_app_iff. simpl.
-    assert (Hs' : tabs (upd hm t (mk (clients x) (bufs x) (closeq x) (rd x ++ [t]) (wr x) (add t (tg x)) (mp x))) s).
+    assert (Hs' : tabs (upd hm t (mk (clients x) (bufs x) (closeq x) (rd x ++ [t]) (wr x) (add t (tg x)) (mp x) (lis x))) s).
     { unfold tabs in *. simpl in Hs. exact Hs. }
     apply tabs_upd in Hs'.
     unfold tabs in Hs'; simpl in Hs'. rewrite in_app_iff, In_add in Hs'. simpl in Hs'.
@@ -214,7 +214,7 @@ Qed.
 
 (* ------------------------------------------------------------------ effects of one handler invocation *)
 Definition silent1 (e : out) : Prop :=
-  match e with OCall (CRecv _ (RData (_ :: _))) => False | OCall _ => True | OSnap _ => True | OEv _ => False end.
+  match e with OCall (CRecv _ (RData (_ :: _))) => False | OCall _ => True | OSnap _ => True | OSrv _ => True | OEv _ => False end.
 Definition silent (o : list out) : Prop := Forall silent1 o.
 
 Inductive Eff (t : sock) (x x' : st) (o : list out) : Prop :=
@@ -365,7 +365,7 @@ Proof.
   induction 1 as [|e o He Ho IH]; simpl; auto.
   destruct IH as (I1 & I2 & I3 & I4 & I5).
   unfold count in *. simpl. unfold proj, reads, recvd in *. simpl. rewrite I3, I4, I5.
-  destruct e as [e|[q [[|b d]| | |]|q n]|y]; simpl in He; try contradiction; simpl; auto.
+  destruct e as [e|[q [[|b d]| | |]|q n]|y|v]; simpl in He; try contradiction; simpl; auto.
 Qed.
 
 Lemma mem_ext s l l' : (In s l <-> In s l') -> mem s l = mem s l'.
@@ -515,22 +515,55 @@ Proof.
   apply H2. rewrite <- in_rev. auto.
 Qed.
 
+Lemma Inv_set_lis A G b x acc : Inv A G x acc -> Inv A G (set_lis b x) acc.
+Proof.
+  intros [[Hnc Hnq Hnr Hnw Hsub] Hs HG Hd Hc Hp Hr]. constructor; auto. constructor; auto.
+Qed.
+
+Lemma Inv_silent A G x acc o : Inv A G x acc -> silent o -> Inv A G x (acc ++ o).
+Proof. intros I S. apply (Inv_eff A G 0 x x acc o I). apply EffQ; auto. apply (I_wf _ _ _ _ I). Qed.
+
+Lemma close_each_Inv hm A G l : forall y oy acc, Inv A G y (acc ++ oy) ->
+  Inv A G (fst (fold_left (fun (a : st * list out) s => let '(y, o) := a in
+                            let '(y', o') := do_close hm s y in (y', o ++ o')) l (y, oy)))
+          (acc ++ snd (fold_left (fun (a : st * list out) s => let '(y, o) := a in
+                            let '(y', o') := do_close hm s y in (y', o ++ o')) l (y, oy))).
+Proof.
+  induction l as [|a l IH]; intros y oy acc I; simpl; auto.
+  destruct (do_close hm a y) as [y' o'] eqn:C. apply IH. rewrite app_assoc.
+  eapply Inv_eff; eauto. eapply do_close_eff; eauto. apply (I_wf _ _ _ _ I).
+Qed.
+
+Lemma Inv_close_all hm A G x acc x' o : Inv A G x acc -> close_all hm x = (x', o) -> Inv A G x' (acc ++ o).
+Proof.
+  intros I E. unfold close_all, close_each in E.
+  match type of E with context [fold_left ?f ?l ?a] => destruct (fold_left f l a) as [x2 o2] eqn:F end.
+  injection E as <- <-.
+  set (o1 := if lis x then [OSrv VListenDown] else []).
+  assert (S1 : silent o1) by (unfold o1; destruct (lis x); repeat constructor).
+  pose proof (Inv_silent _ _ _ _ o1 (Inv_set_lis A G false x acc I) S1) as I1.
+  rewrite <- (app_nil_r (acc ++ o1)) in I1.
+  pose proof (close_each_Inv hm A G (clients x) (set_lis false x) [] (acc ++ o1) I1) as I2.
+  rewrite F in I2. simpl in I2.
+  rewrite !app_assoc. apply Inv_silent. exact I2. repeat constructor.
+Qed.
+
 Lemma Inv_step hm A G x acc i x' o :
   Inv A G x acc -> NoDup (A ++ accepted_of i) -> step hm x i = (x', o) ->
   Inv (A ++ accepted_of i) (G ++ gone_of i) x' (acc ++ o).
 Proof.
   intros I ND E. pose proof (I_wf _ _ _ _ I) as W.
-  destruct i; simpl in *;
-    try (rewrite !app_nil_r; eapply Inv_eff; [exact I|]).
+  destruct i; simpl in *.
   - apply (Inv_accept hm A G s x acc x' o false); auto. apply NoDup_snoc_inv; auto.
   - apply (Inv_accept hm A G s x acc x' o true); auto. apply NoDup_snoc_inv; auto.
-  - eapply on_read_eff; eauto.
-  - eapply on_writable_eff; eauto.
-  - injection E as <- <-. apply (EffQ s); auto. apply wf_pdrop; auto.
-  - eapply do__close_eff; eauto.
-  - eapply on_write_req_eff; eauto.
-  - eapply do_close_eff; eauto.
-  - injection E as <- <-. apply (EffQ 0); auto. repeat constructor.
+  - rewrite !app_nil_r. eapply Inv_eff; [exact I|]. eapply on_read_eff; eauto.
+  - rewrite !app_nil_r. eapply Inv_eff; [exact I|]. eapply on_writable_eff; eauto.
+  - rewrite !app_nil_r. eapply Inv_eff; [exact I|]. injection E as <- <-. apply (EffQ s); auto. apply wf_pdrop; auto.
+  - rewrite !app_nil_r. eapply Inv_eff; [exact I|]. eapply do__close_eff; eauto.
+  - rewrite !app_nil_r. eapply Inv_eff; [exact I|]. eapply on_write_req_eff; eauto.
+  - rewrite !app_nil_r. eapply Inv_eff; [exact I|]. eapply do_close_eff; eauto.
+  - rewrite !app_nil_r. eapply Inv_close_all; eauto.
+  - rewrite !app_nil_r. injection E as <- <-. apply Inv_silent; auto. repeat constructor.
 Qed.
 
 Lemma Inv_run_from hm h : forall A G x acc, Inv A G x acc -> NoDup (A ++ accepted h) ->
@@ -600,16 +633,18 @@ Proof. exists [SAcceptGone 0]. split. repeat constructor; simpl; tauto. vm_compu
 (* ------------------------------------------------------------------ client: one disconnected per connected *)
 Definition b2n (b : bool) : nat := if b then 1 else 0.
 
+Ltac cbrute E :=
+  repeat (match type of E with
+          | context [if ?a then _ else _] => destruct a; simpl in E
+          end).
+
 Lemma cstep_balance x i x' o :
-  match i with KConnect _ => conn x = false | _ => True end -> cstep x i = (x', o) ->
+  match i with KConnect _ _ => conn x = false | _ => True end -> cstep x i = (x', o) ->
   count is_kconn o + b2n (conn x) = count is_kdisc o + b2n (conn x').
 Proof.
-  intros P E. destruct x as [c p f]. unfold cstep, c_drained, c_close, c__close in E. simpl in *.
-  destruct i as [ok|[[|b d]| | |]|[k| |] cl| | |n|]; try destruct ok; try destruct cl;
-    destruct c, f; destruct p as [|n0 rest]; simpl in *; try discriminate;
-    repeat (match type of E with
-            | context [if ?a then _ else _] => destruct a; simpl in E
-            end);
+  intros P E. destruct x as [c p f so]. unfold cstep, c_drained, c_close, c__close in E. simpl in *.
+  destruct i as [ok fr|[[|b d]| | |]|[k| |] cl| | |n|]; try destruct ok; try destruct cl;
+    destruct c, f; destruct p as [|n0 rest]; simpl in *; try discriminate; cbrute E;
     injection E as <- <-; reflexivity.
 Qed.
 
@@ -634,7 +669,61 @@ Proof. intros P. apply crun_from_balance; auto. Qed.
 (* without the precondition the count is wrong: connect while connected announces a second `connected` *)
 Theorem client_balance_refuted :
   exists h, count is_kconn (snd (crun h)) = 2 /\ count is_kdisc (snd (crun h)) = 0.
-Proof. exists [KConnect true; KConnect true]. vm_compute. auto. Qed.
+Proof. exists [KConnect true false; KConnect true false]. vm_compute. auto. Qed.
+
+(* while the socket object is closed (from `disconnected` until a connect makes a new one) the client is down and
+   holds nothing — whatever arrives, late writes and closes included *)
+Definition cinv (x : cst) : Prop := sopen x = false -> cdown x.
+
+Lemma cstep_cinv x i : cinv x -> cinv (fst (cstep x i)).
+Proof.
+  unfold cinv, cdown. destruct x as [c p f so]. intros H.
+  destruct (cstep (cmk c p f so) i) as [x' o] eqn:E.
+  unfold cstep, c_drained, c_close, c__close in E. simpl in *.
+  destruct i as [ok fr|[[|b d]| | |]|[k| |] cl| | |n|]; try destruct ok; try destruct cl; try destruct fr;
+    destruct c, f, so; destruct p as [|n0 rest]; simpl in *; cbrute E;
+    injection E as <- <-; simpl; intros Q; try discriminate; auto;
+    try (destruct (H eq_refl) as (H1 & H2 & H3); discriminate).
+Qed.
+
+Lemma crun_from_cinv h : forall x acc, cinv x -> cinv (fst (crun_from x acc h)).
+Proof.
+  induction h as [|i t IH]; intros x acc H; simpl; auto.
+  destruct (cstep x i) as [x' o] eqn:E. apply IH. pose proof (cstep_cinv x i H) as Q. rewrite E in Q. exact Q.
+Qed.
+
+Theorem client_closed_clean h : sopen (fst (crun h)) = false -> cdown (fst (crun h)).
+Proof. apply (crun_from_cinv h cinit []). unfold cinv, cinit. simpl. discriminate. Qed.
+
+(* the step that reports `disconnected` closes the socket and clears everything *)
+Lemma cstep_disc_closes x i : In KDisconnected (snd (cstep x i)) ->
+  sopen (fst (cstep x i)) = false /\ cdown (fst (cstep x i)).
+Proof.
+  unfold cdown. destruct x as [c p f so].
+  destruct (cstep (cmk c p f so) i) as [x' o] eqn:E.
+  unfold cstep, c_drained, c_close, c__close in E. simpl in *.
+  destruct i as [ok fr|[[|b d]| | |]|[k| |] cl| | |n|]; try destruct ok; try destruct cl; try destruct fr;
+    destruct c, f, so; destruct p as [|n0 rest]; simpl in *; cbrute E;
+    injection E as <- <-; simpl; intros Q; auto;
+    repeat (destruct Q as [Q|Q]; try discriminate); try contradiction.
+Qed.
+
+(* a closed, down client ignores everything but connect: state unchanged, nothing sent, nothing announced *)
+Lemma cstep_down_inert x i : sopen x = false -> cdown x ->
+  match i with KConnect _ _ => False | _ => True end ->
+  fst (cstep x i) = x /\
+  (forall e, In e (snd (cstep x i)) -> is_ksend e = false /\ is_kconn e = false /\ is_kdisc e = false).
+Proof.
+  unfold cdown. destruct x as [c p f so]. simpl. intros -> (-> & -> & ->) NC.
+  destruct i as [ok fr|[[|b d]| | |]|[k| |] cl| | |n|]; try contradiction; simpl; split; auto;
+    intros e Q; repeat (destruct Q as [Q|Q]; try (subst e; simpl; auto)); try contradiction.
+Qed.
+
+Theorem client_late_requests_inert h i : sopen (fst (crun h)) = false ->
+  match i with KConnect _ _ => False | _ => True end ->
+  fst (cstep (fst (crun h)) i) = fst (crun h) /\
+  (forall e, In e (snd (cstep (fst (crun h)) i)) -> is_ksend e = false /\ is_kconn e = false /\ is_kdisc e = false).
+Proof. intros S NC. apply cstep_down_inert; auto. apply client_closed_clean; auto. Qed.
 
 (* ------------------------------------------------------------------ readable consequences of the automaton *)
 Lemma bad_absorbing l : fold_left astep l PBad = PBad.
@@ -667,4 +756,484 @@ Proof.
     unfold proj in I. apply in_flat_map in I. destruct I as [o [_ I]]. destruct o; simpl in I; try contradiction.
     destruct (Nat.eqb_spec s (ev_sock e0)); simpl in I; [|contradiction]. destruct I as [<-|[]]. auto. }
   simpl in NB. destruct e; simpl in *; subst; auto; exfalso; apply NB, bad_absorbing.
+Qed.
+
+(* ------------------------------------------------------------------ isolation: a stimulus for t leaves s <> t alone *)
+Section Frame.
+Variables (s t : sock).
+Hypothesis NE : s <> t.
+
+Lemma mem_remove1_ne l : mem s (remove1 t l) = mem s l.
+Proof. apply mem_ext. split; [apply In_remove1|apply In_remove1_neq; auto]. Qed.
+Lemma mem_del_ne l : mem s (del t l) = mem s l.
+Proof. apply mem_ext. rewrite In_del. tauto. Qed.
+Lemma mem_add_ne l : mem s (add t l) = mem s l.
+Proof. apply mem_ext. rewrite In_add. intuition congruence. Qed.
+Lemma mem_snoc_ne l : mem s (l ++ [t]) = mem s l.
+Proof. rewrite mem_snoc. apply Nat.eqb_neq in NE. rewrite NE. apply orb_false_r. Qed.
+
+Local Transparent bset btouch bdel.
+Lemma bget_bdel_ne b : bget s (bdel t b) = bget s b.
+Proof.
+  unfold bget, bdel. induction b as [|[k v] b IH]; simpl; auto.
+  destruct (Nat.eqb_spec t k); simpl.
+  - subst k. destruct (Nat.eqb_spec s t); [contradiction|]. auto.
+  - destruct (Nat.eqb s k); auto.
+Qed.
+Lemma bhas_bdel_ne b : bhas s (bdel t b) = bhas s b.
+Proof.
+  unfold bhas, bdel. induction b as [|[k v] b IH]; simpl; auto.
+  destruct (Nat.eqb_spec t k); simpl.
+  - subst k. destruct (Nat.eqb_spec s t); [contradiction|]. auto.
+  - rewrite IH. auto.
+Qed.
+Lemma bget_bset_ne v b : bget s (bset t v b) = bget s (bdel t b).
+Proof. unfold bset, bget. simpl. destruct (Nat.eqb_spec s t); [contradiction|]. auto. Qed.
+Lemma bhas_bset_ne v b : bhas s (bset t v b) = bhas s (bdel t b).
+Proof. unfold bset, bhas. simpl. destruct (Nat.eqb_spec s t); [contradiction|]. auto. Qed.
+Lemma bget_btouch_ne b : bget s (btouch t b) = bget s b.
+Proof. unfold btouch. destruct (bhas t b); auto. unfold bget. simpl. destruct (Nat.eqb_spec s t); [contradiction|]. auto. Qed.
+Lemma bhas_btouch_ne b : bhas s (btouch t b) = bhas s b.
+Proof. unfold btouch. destruct (bhas t b); auto. unfold bhas. simpl. destruct (Nat.eqb_spec s t); [contradiction|]. auto. Qed.
+Local Opaque bset btouch bdel.
+
+Ltac rows :=
+  unfold row_of; simpl;
+  rewrite ?mem_remove1_ne, ?mem_del_ne, ?mem_add_ne, ?mem_snoc_ne, ?bget_bset_ne, ?bhas_bset_ne,
+          ?bget_bdel_ne, ?bhas_bdel_ne, ?bget_btouch_ne, ?bhas_btouch_ne; auto.
+
+Lemma row_upd hm x : row_of s (upd hm t x) = row_of s x.
+Proof. unfold upd. destruct (mem t (rd x) || mem t (wr x)); destruct hm; rows. Qed.
+Lemma row_addReader hm x : row_of s (addReader hm t x) = row_of s x.
+Proof. unfold addReader. rewrite row_upd. rows. Qed.
+Lemma row_addWriter hm x : row_of s (addWriter hm t x) = row_of s x.
+Proof. unfold addWriter. rewrite row_upd. rows. Qed.
+Lemma row_removeWriter hm x : row_of s (removeWriter hm t x) = row_of s x.
+Proof. unfold removeWriter. rewrite row_upd. destruct (mem t (rd x) || mem t (remove1 t (wr x))); rows. Qed.
+Lemma row_discard hm x : row_of s (discard hm t x) = row_of s x.
+Proof. unfold discard. rewrite row_upd. rows. Qed.
+Lemma row_pdrop x : row_of s (pdrop t x) = row_of s x.
+Proof. unfold pdrop. rows. Qed.
+Lemma row_touch x : row_of s (set_bufs (btouch t (bufs x)) x) = row_of s x.
+Proof. rows. Qed.
+Lemma row_bset v x : row_of s (set_bufs (bset t v (bufs x)) x) = row_of s x.
+Proof. rows. Qed.
+Lemma row_closeq_add x : row_of s (set_closeq (closeq x ++ [t]) x) = row_of s x.
+Proof. rows. Qed.
+Lemma row_closeq_rem x : row_of s (set_closeq (remove1 t (closeq x)) x) = row_of s x.
+Proof. rows. Qed.
+
+(* result r of a handler run for t: s's row is as in x, no event and no kernel call for s *)
+Definition Frame (x : st) (r : st * list out) : Prop :=
+  row_of s (fst r) = row_of s x /\ proj s (snd r) = [] /\ calls s (snd r) = [].
+
+Lemma Frame_nil x x' : row_of s x' = row_of s x -> Frame x (x', []).
+Proof. intros. repeat split; auto. Qed.
+Lemma Frame_from x x1 r : row_of s x1 = row_of s x -> Frame x1 r -> Frame x r.
+Proof. intros E (F1 & F2 & F3). repeat split; auto. congruence. Qed.
+Lemma Frame_cons x x' o e : proj_of s e = [] -> call_of s e = [] -> Frame x (x', o) -> Frame x (x', e :: o).
+Proof.
+  intros P C (F1 & F2 & F3). repeat split; auto; simpl in *.
+  - unfold proj in *. simpl. rewrite P. auto.
+  - unfold calls in *. simpl. rewrite C. auto.
+Qed.
+Lemma Frame_app x x1 x2 o1 o2 : Frame x (x1, o1) -> Frame x1 (x2, o2) -> Frame x (x2, o1 ++ o2).
+Proof.
+  intros (F1 & F2 & F3) (G1 & G2 & G3). simpl in *. repeat split; simpl.
+  - congruence.
+  - rewrite proj_app, F2, G2. auto.
+  - unfold calls in *. rewrite flat_map_app, F3, G3. auto.
+Qed.
+
+Lemma ne_eqb : Nat.eqb s t = false.
+Proof. apply Nat.eqb_neq; auto. Qed.
+
+Ltac ev_t := simpl; rewrite ?ne_eqb; auto.
+
+Lemma do__close_frame hm x : Frame x (do__close hm t x).
+Proof.
+  unfold do__close. destruct (negb (mem t (clients x))). apply Frame_nil; auto.
+  apply Frame_cons; [ev_t|ev_t|]. apply Frame_nil.
+  pose proof (row_discard hm x) as R. unfold row_of in *. simpl.
+  injection R as R1 R2 R3 R4 R5 R6 R7 R8.
+  rewrite ?mem_remove1_ne, ?bget_bdel_ne, ?bhas_bdel_ne. congruence.
+Qed.
+
+Lemma do_close_frame hm x : Frame x (do_close hm t x).
+Proof.
+  unfold do_close. destruct (negb (mem t (clients x))). apply Frame_nil; auto.
+  cbv zeta. destruct (isnil (bget t (bufs (set_bufs (btouch t (bufs x)) x)))).
+  - eapply Frame_from; [apply row_touch|]. apply do__close_frame.
+  - destruct (mem t (closeq (set_bufs (btouch t (bufs x)) x))); apply Frame_nil.
+    + apply row_touch.
+    + rewrite row_closeq_add. apply row_touch.
+Qed.
+
+Lemma on_read_frame hm r x : Frame x (on_read hm t r x).
+Proof.
+  unfold on_read. destruct (negb (mem t (clients x))). apply Frame_nil; auto.
+  destruct r as [[|b d]| | |].
+  - destruct (do_close hm t x) as [x' o] eqn:E. apply Frame_cons; [ev_t|ev_t|]. rewrite <- E. apply do_close_frame.
+  - apply Frame_cons; [ev_t|ev_t|]. apply Frame_cons; [ev_t|ev_t|]. apply Frame_nil; auto.
+  - destruct (do_close hm t x) as [x' o] eqn:E. apply Frame_cons; [ev_t|ev_t|]. rewrite <- E. apply do_close_frame.
+  - apply Frame_cons; [ev_t|ev_t|]. apply Frame_nil; auto.
+  - destruct (do__close hm t x) as [x' o] eqn:E. apply Frame_cons; [ev_t|ev_t|]. apply Frame_cons; [ev_t|ev_t|].
+    rewrite <- E. apply do__close_frame.
+Qed.
+
+Lemma drained_frame hm x : Frame x (drained hm t x).
+Proof.
+  unfold drained. cbv zeta. set (x1 := set_bufs (btouch t (bufs x)) x).
+  assert (R1 : row_of s x1 = row_of s x) by apply row_touch.
+  destruct (isnil (bget t (bufs x1))).
+  - destruct (mem t (closeq x1)).
+    + eapply Frame_from; [|apply do__close_frame]. rewrite row_closeq_rem. auto.
+    + destruct (mem t (wr x1)); apply Frame_nil; auto. rewrite row_removeWriter. auto.
+  - apply Frame_nil; auto.
+Qed.
+
+Lemma on_writable_frame hm w x : Frame x (on_writable hm t w x).
+Proof.
+  unfold on_writable. destruct (negb (mem t (clients x))). apply Frame_nil; auto.
+  cbv zeta. set (x0 := set_bufs (btouch t (bufs x)) x).
+  assert (R0 : row_of s x0 = row_of s x) by apply row_touch.
+  destruct (bget t (bufs x0)) as [|n rest].
+  - eapply Frame_from; [exact R0|]. apply drained_frame.
+  - set (x1 := set_bufs (bset t rest (bufs x0)) x0).
+    assert (R1 : row_of s x1 = row_of s x) by (unfold x1; rewrite row_bset; auto).
+    destruct w as [k| |].
+    + set (x2 := if (k <? n)%N then set_bufs (bset t ((n - k)%N :: rest) (bufs x1)) x1 else x1).
+      assert (R2 : row_of s x2 = row_of s x) by (unfold x2; destruct (k <? n)%N; auto; rewrite row_bset; auto).
+      destruct (mem t (clients x2)).
+      * destruct (drained hm t x2) as [x3 o3] eqn:D. apply Frame_cons; [ev_t|ev_t|]. simpl.
+        eapply Frame_from; [exact R2|]. rewrite <- D. apply drained_frame.
+      * apply Frame_cons; [ev_t|ev_t|]. apply Frame_nil; auto.
+    + set (x2 := set_bufs (bset t (n :: rest) (bufs x1)) x1).
+      assert (R2 : row_of s x2 = row_of s x) by (unfold x2; rewrite row_bset; auto).
+      destruct (mem t (clients x2)).
+      * destruct (drained hm t x2) as [x3 o3] eqn:D. apply Frame_cons; [ev_t|ev_t|]. simpl.
+        eapply Frame_from; [exact R2|]. rewrite <- D. apply drained_frame.
+      * apply Frame_cons; [ev_t|ev_t|]. apply Frame_nil; auto.
+    + destruct (do__close hm t x1) as [x2 o2] eqn:C.
+      assert (F2 : Frame x (x2, OEv (EError t) :: o2)).
+      { apply Frame_cons; [ev_t|ev_t|]. eapply Frame_from; [exact R1|]. rewrite <- C. apply do__close_frame. }
+      destruct (mem t (clients x2)).
+      * destruct (drained hm t x2) as [x3 o3] eqn:D. apply Frame_cons; [ev_t|ev_t|].
+        eapply Frame_app; [exact F2|]. rewrite <- D. apply drained_frame.
+      * apply Frame_cons; [ev_t|ev_t|]. exact F2.
+Qed.
+
+Lemma on_write_req_frame hm n x : Frame x (on_write_req hm t n x).
+Proof.
+  unfold on_write_req. destruct (negb (mem t (clients x))). apply Frame_nil; auto.
+  cbv zeta. apply Frame_nil. destruct (mem t (wr x)).
+  - rewrite row_bset. auto.
+  - rewrite row_bset. apply row_addWriter.
+Qed.
+
+Lemma on_accept_frame hm g x : Frame x (on_accept hm t g x).
+Proof.
+  unfold on_accept. cbv zeta.
+  set (x2 := set_clients (clients (addReader hm t x) ++ [t]) (addReader hm t x)).
+  assert (R2 : row_of s x2 = row_of s x).
+  { pose proof (row_addReader hm x) as R. unfold row_of in *. simpl.
+    injection R as R1 R2 R3 R4 R5 R6 R7 R8. rewrite mem_snoc_ne. congruence. }
+  destruct g.
+  - destruct (do__close hm t x2) as [x3 o] eqn:C. apply Frame_cons; [ev_t|ev_t|].
+    eapply Frame_from; [exact R2|]. rewrite <- C. apply do__close_frame.
+  - apply Frame_cons; [ev_t|ev_t|]. apply Frame_nil; auto.
+Qed.
+End Frame.
+
+Lemma step_frame hm s x i : touches s i = false -> Frame s x (step hm x i).
+Proof.
+  intros T. destruct i; simpl in T; try discriminate;
+    try (apply Nat.eqb_neq in T); cbn [step].
+  - apply on_accept_frame; auto.
+  - apply on_accept_frame; auto.
+  - apply on_read_frame; auto.
+  - apply on_writable_frame; auto.
+  - apply Frame_nil. apply row_pdrop; auto.
+  - apply do__close_frame; auto.
+  - apply on_write_req_frame; auto.
+  - apply do_close_frame; auto.
+  - repeat split; auto.
+Qed.
+
+Theorem isolation hm s h : forall x acc, Forall (fun i => touches s i = false) h ->
+  row_of s (fst (run_from hm x acc h)) = row_of s x /\
+  proj s (snd (run_from hm x acc h)) = proj s acc /\
+  calls s (snd (run_from hm x acc h)) = calls s acc.
+Proof.
+  induction h as [|i h IH]; intros x acc F; simpl; auto.
+  inversion F as [|? ? Fi Fh]; subst.
+  destruct (step hm x i) as [x' o] eqn:E.
+  destruct (step_frame hm s x i Fi) as (F1 & F2 & F3). rewrite E in *. simpl in *.
+  destruct (IH x' (acc ++ o) Fh) as (I1 & I2 & I3).
+  rewrite I1, I2, I3, F1, proj_app, F2, app_nil_r. unfold calls. rewrite flat_map_app.
+  fold (calls s o). rewrite F3, app_nil_r. auto.
+Qed.
+
+(* ------------------------------------------------------------------ liveness relative to the stimuli *)
+Local Transparent bset btouch bdel.
+Lemma bget_btouch_same s b : bget s (btouch s b) = bget s b.
+Proof.
+  unfold btouch. destruct (bhas s b) eqn:H; auto. unfold bget. simpl. rewrite Nat.eqb_refl. simpl.
+  unfold bhas in H. destruct (find (fun p => Nat.eqb s (fst p)) b) eqn:F; auto.
+  apply find_some in F. destruct F as [F1 F2].
+  assert (existsb (fun p => Nat.eqb s (fst p)) b = true) by (apply existsb_exists; eauto). congruence.
+Qed.
+Lemma bget_bset_same s v b : bget s (bset s v b) = v.
+Proof. unfold bset, bget. simpl. rewrite Nat.eqb_refl. auto. Qed.
+Local Opaque bset btouch bdel.
+
+Lemma wf_nostate s y : wf y -> ~ In s (clients y) -> no_state s y.
+Proof. intros [_ _ _ _ Hsub] N. unfold no_state. repeat split; auto; intro Q; apply N, Hsub; unfold tabs; tauto. Qed.
+
+Lemma close_now hm s y y' o : wf y -> In s (clients y) -> do__close hm s y = (y', o) ->
+  o = [OEv (EDisconnect s)] /\ wf y' /\ ~ In s (clients y').
+Proof.
+  intros W I E. destruct (do__close_spec _ _ _ _ _ W E) as [(N & _)|(_ & W' & Ec & ->)]. contradiction.
+  split; [reflexivity|split; [exact W'|]]. rewrite Ec. apply remove1_notin. destruct W; auto.
+Qed.
+
+Lemma do_close_now hm s y y' o : wf y -> In s (clients y) -> bget s (bufs y) = [] -> do_close hm s y = (y', o) ->
+  o = [OEv (EDisconnect s)] /\ wf y' /\ ~ In s (clients y').
+Proof.
+  intros W I B E. unfold do_close in E. rewrite (mem_true _ _ I) in E. cbn [negb] in E. cbv zeta in E.
+  cbn [bufs set_bufs] in E. rewrite bget_btouch_same, B in E. cbn [isnil] in E.
+  eapply close_now; [| |exact E]. apply wf_touch; auto. auto.
+Qed.
+
+Lemma do_close_defers hm s y y' o : wf y -> In s (clients y) -> bget s (bufs y) <> [] -> do_close hm s y = (y', o) ->
+  o = [] /\ wf y' /\ clients y' = clients y /\ In s (closeq y') /\ bget s (bufs y') = bget s (bufs y).
+Proof.
+  intros W I B E. unfold do_close in E. rewrite (mem_true _ _ I) in E. cbn [negb] in E. cbv zeta in E.
+  cbn [bufs set_bufs closeq] in E. rewrite bget_btouch_same in E.
+  destruct (bget s (bufs y)) as [|n r] eqn:G; [congruence|]. cbn [isnil] in E.
+  pose proof (wf_touch s y W I) as W1.
+  destruct (mem s (closeq y)) eqn:Q; injection E as <- <-; cbn [bufs set_bufs set_closeq closeq clients].
+  - split; [reflexivity|split; [exact W1|split; [reflexivity|split]]].
+    + apply mem_In; auto.
+    + rewrite bget_btouch_same; auto.
+  - split; [reflexivity|split; [|split; [reflexivity|split]]].
+    + apply (wf_closeq_add s _ W1); auto. simpl. apply mem_nIn; auto.
+    + apply in_or_app. simpl. auto.
+    + rewrite bget_btouch_same; auto.
+Qed.
+
+Lemma drained_now hm s y : wf y -> In s (clients y) -> bget s (bufs y) = [] -> mem s (closeq y) = true ->
+  exists y', drained hm s y = (y', [OEv (EDisconnect s)]) /\ wf y' /\ ~ In s (clients y').
+Proof.
+  intros W I B Q. unfold drained. cbv zeta. cbn [bufs set_bufs closeq]. rewrite bget_btouch_same, B. cbn [isnil].
+  rewrite Q.
+  destruct (do__close hm s (set_closeq (remove1 s (closeq y)) (set_bufs (btouch s (bufs y)) y))) as [y' o] eqn:E.
+  assert (WY : wf (set_closeq (remove1 s (closeq y)) (set_bufs (btouch s (bufs y)) y))).
+  { apply (wf_closeq_rem s (set_bufs (btouch s (bufs y)) y)). apply wf_touch; auto. }
+  destruct (close_now hm s _ y' o WY I E) as (-> & W' & N). exists y'. auto.
+Qed.
+
+Theorem disconnect_follows_wf hm x s i : wf x -> In s (clients x) -> terminal s x i = true ->
+  In (OEv (EDisconnect s)) (snd (step hm x i)) /\ no_state s (fst (step hm x i)).
+Proof.
+  intros W I T.
+  assert (M : mem s (clients x) = true) by (apply mem_true; auto).
+  destruct i as [t|t|t r|t w|t|t|t n|t| |]; simpl in T; try discriminate.
+  - (* _read *)
+    destruct r as [[|b d]| | |]; try discriminate.
+    + apply andb_true_iff in T. destruct T as [T B]. apply Nat.eqb_eq in T. subst t.
+      destruct (bget s (bufs x)) eqn:G; [|discriminate].
+      cbn [step]. unfold on_read. rewrite M. cbn [negb].
+      destruct (do_close hm s x) as [x' o] eqn:E.
+      destruct (do_close_now hm s x x' o W I G E) as (-> & W' & N). simpl. split; auto. apply wf_nostate; auto.
+    + apply andb_true_iff in T. destruct T as [T B]. apply Nat.eqb_eq in T. subst t.
+      destruct (bget s (bufs x)) eqn:G; [|discriminate].
+      cbn [step]. unfold on_read. rewrite M. cbn [negb].
+      destruct (do_close hm s x) as [x' o] eqn:E.
+      destruct (do_close_now hm s x x' o W I G E) as (-> & W' & N). simpl. split; auto. apply wf_nostate; auto.
+    + apply Nat.eqb_eq in T. subst t. cbn [step]. unfold on_read. rewrite M. cbn [negb].
+      destruct (do__close hm s x) as [x' o] eqn:E.
+      destruct (close_now hm s x x' o W I E) as (-> & W' & N). simpl. split; auto. apply wf_nostate; auto.
+  - (* _write *)
+    pose proof (wf_touch s x W I) as W0.
+    destruct w as [k| |]; try discriminate.
+    + apply andb_true_iff in T. destruct T as [T B]. apply andb_true_iff in T. destruct T as [T Q].
+      apply Nat.eqb_eq in T. subst t.
+      destruct (bget s (bufs x)) as [|n [|n2 r]] eqn:G; try discriminate.
+      apply negb_true_iff in B.
+      cbn [step]. unfold on_writable. rewrite M. cbn [negb]. cbv zeta.
+      cbn [bufs set_bufs clients]. rewrite bget_btouch_same, G, B. cbn [clients set_bufs]. rewrite M.
+      destruct (drained_now hm s (set_bufs (bset s [] (btouch s (bufs x))) (set_bufs (btouch s (bufs x)) x)))
+        as (y' & D & W' & N); auto.
+      { apply (wf_bset s [] _ W0); auto. }
+      { cbn [bufs set_bufs]. apply bget_bset_same. }
+      rewrite D. simpl. split; auto. apply wf_nostate; auto.
+    + apply andb_true_iff in T. destruct T as [T B]. apply Nat.eqb_eq in T. subst t.
+      destruct (bget s (bufs x)) as [|n r] eqn:G; [discriminate|].
+      cbn [step]. unfold on_writable. rewrite M. cbn [negb]. cbv zeta.
+      cbn [bufs set_bufs]. rewrite bget_btouch_same, G.
+      match goal with |- context [do__close hm s ?y] => destruct (do__close hm s y) as [x' o] eqn:E;
+        assert (WY : wf y) by (apply (wf_bset s r _ W0); auto) end.
+      destruct (close_now hm s _ x' o WY I E) as (-> & W' & N).
+      rewrite (mem_false _ _ N). simpl. split; auto. apply wf_nostate; auto.
+  - (* _disconnect *)
+    apply Nat.eqb_eq in T. subst t. cbn [step].
+    destruct (do__close hm s x) as [x' o] eqn:E.
+    destruct (close_now hm s x x' o W I E) as (-> & W' & N). simpl. split; auto. apply wf_nostate; auto.
+  - (* close(s) *)
+    apply andb_true_iff in T. destruct T as [T B]. apply Nat.eqb_eq in T. subst t.
+    destruct (bget s (bufs x)) eqn:G; [|discriminate]. cbn [step].
+    destruct (do_close hm s x) as [x' o] eqn:E.
+    destruct (do_close_now hm s x x' o W I G E) as (-> & W' & N). simpl. split; auto. apply wf_nostate; auto.
+Qed.
+
+Theorem disconnect_follows hm h s i : NoDup (accepted h) ->
+  In s (clients (fst (run hm h))) -> terminal s (fst (run hm h)) i = true ->
+  In (OEv (EDisconnect s)) (snd (step hm (fst (run hm h)) i)) /\ no_state s (fst (step hm (fst (run hm h)) i)).
+Proof. intros ND. apply disconnect_follows_wf. apply (I_wf _ _ _ _ (Inv_run hm h ND)). Qed.
+
+(* EOF / close(s) with output still buffered: the close is queued; the flush of the last payload is terminal *)
+Theorem deferred_close hm h s i : NoDup (accepted h) ->
+  In s (clients (fst (run hm h))) -> deferring s (fst (run hm h)) i = true ->
+  In s (closeq (fst (step hm (fst (run hm h)) i))) /\ In s (clients (fst (step hm (fst (run hm h)) i))) /\
+  bget s (bufs (fst (step hm (fst (run hm h)) i))) = bget s (bufs (fst (run hm h))).
+Proof.
+  intros ND I T. pose proof (I_wf _ _ _ _ (Inv_run hm h ND)) as W. set (x := fst (run hm h)) in *.
+  assert (M : mem s (clients x) = true) by (apply mem_true; auto).
+  assert (D : forall t, Nat.eqb s t && negb (isnil (bget s (bufs x))) = true ->
+              t = s /\ bget s (bufs x) <> []).
+  { intros t Q. apply andb_true_iff in Q. destruct Q as [Q1 Q2]. apply Nat.eqb_eq in Q1. split; auto.
+    destruct (bget s (bufs x)); [discriminate|congruence]. }
+  destruct i as [t|t|t r|t w|t|t|t n|t| |]; simpl in T; try discriminate.
+  - destruct r as [[|b d]| | |]; try discriminate; destruct (D t T) as [-> B];
+      cbn [step]; unfold on_read; rewrite M; cbn [negb];
+      destruct (do_close hm s x) as [x' o] eqn:E;
+      destruct (do_close_defers hm s x x' o W I B E) as (-> & W' & Ec & Q & G); simpl; rewrite Ec; auto.
+  - destruct (D t T) as [-> B]. cbn [step].
+    destruct (do_close hm s x) as [x' o] eqn:E.
+    destruct (do_close_defers hm s x x' o W I B E) as (-> & W' & Ec & Q & G); simpl; rewrite Ec; auto.
+Qed.
+
+(* ------------------------------------------------------------------ close(): the whole server *)
+Definition cfold hm := fun (a : st * list out) (s : sock) =>
+  let '(y, o) := a in let '(y', o') := do_close hm s y in (y', o ++ o').
+
+Lemma lis_upd hm t x : lis (upd hm t x) = lis x.
+Proof. unfold upd. destruct (mem t (rd x) || mem t (wr x)); auto. Qed.
+Lemma lis_do__close hm t y : lis (fst (do__close hm t y)) = lis y.
+Proof. unfold do__close. destruct (negb (mem t (clients y))); simpl; auto. unfold discard. rewrite lis_upd. auto. Qed.
+Lemma lis_do_close hm t y : lis (fst (do_close hm t y)) = lis y.
+Proof.
+  unfold do_close. destruct (negb (mem t (clients y))); simpl; auto.
+  destruct (isnil (bget t (btouch t (bufs y)))).
+  - rewrite lis_do__close. auto.
+  - destruct (mem t (closeq y)); auto.
+Qed.
+
+Lemma cfold_lis hm l : forall y oy, lis (fst (fold_left (cfold hm) l (y, oy))) = lis y.
+Proof.
+  induction l as [|a l IH]; intros y oy; simpl; auto.
+  destruct (do_close hm a y) as [y' o'] eqn:E. rewrite IH.
+  pose proof (lis_do_close hm a y) as L. rewrite E in L. auto.
+Qed.
+Lemma cfold_wf hm l : forall y oy, wf y -> wf (fst (fold_left (cfold hm) l (y, oy))).
+Proof.
+  induction l as [|a l IH]; intros y oy W; simpl; auto.
+  destruct (do_close hm a y) as [y' o'] eqn:E. apply IH.
+  destruct (do_close_eff hm a y y' o' W E); auto.
+Qed.
+Lemma cfold_out_mono hm l : forall y oy e, In e oy -> In e (snd (fold_left (cfold hm) l (y, oy))).
+Proof.
+  induction l as [|a l IH]; intros y oy e I; simpl; auto.
+  destruct (do_close hm a y) as [y' o'] eqn:E. apply IH. apply in_or_app; auto.
+Qed.
+Lemma cfold_frame hm s l : ~ In s l -> forall y oy,
+  row_of s (fst (fold_left (cfold hm) l (y, oy))) = row_of s y.
+Proof.
+  induction l as [|a l IH]; intros N y oy; simpl; auto.
+  destruct (do_close hm a y) as [y' o'] eqn:E.
+  rewrite IH. 2:{ intro; apply N; simpl; auto. }
+  assert (NE : s <> a) by (intro; subst; apply N; simpl; auto).
+  destruct (do_close_frame s a NE hm y) as (F1 & _). rewrite E in F1. auto.
+Qed.
+
+Lemma row_client s x y : row_of s x = row_of s y -> (In s (clients x) <-> In s (clients y)).
+Proof. unfold row_of. intros E. injection E as E1 _. rewrite <- !mem_In. rewrite E1. tauto. Qed.
+Lemma row_closeq s x y : row_of s x = row_of s y -> (In s (closeq x) <-> In s (closeq y)).
+Proof. unfold row_of. intros E. injection E as _ _ _ E4 _. rewrite <- !mem_In. rewrite E4. tauto. Qed.
+Lemma row_buf s x y : row_of s x = row_of s y -> bget s (bufs x) = bget s (bufs y).
+Proof. unfold row_of. intros E. injection E as _ E2 _. auto. Qed.
+
+Lemma cfold_member hm s l : NoDup l -> In s l -> forall y oy, wf y -> In s (clients y) ->
+  let r := fold_left (cfold hm) l (y, oy) in
+  (bget s (bufs y) = [] -> In (OEv (EDisconnect s)) (snd r) /\ ~ In s (clients (fst r))) /\
+  (bget s (bufs y) <> [] -> In s (clients (fst r)) /\ In s (closeq (fst r))).
+Proof.
+  intros ND I y oy W C.
+  destruct (in_split _ _ I) as (l1 & l2 & ->).
+  assert (N1 : ~ In s l1 /\ ~ In s l2).
+  { apply NoDup_remove_2 in ND. split; intro Q; apply ND; apply in_or_app; auto. }
+  destruct N1 as [N1 N2].
+  cbv zeta. rewrite fold_left_app.
+  destruct (fold_left (cfold hm) l1 (y, oy)) as [y1 o1] eqn:F1.
+  pose proof (cfold_frame hm s l1 N1 y oy) as R1. rewrite F1 in R1. simpl in R1.
+  pose proof (cfold_wf hm l1 y oy W) as W1. rewrite F1 in W1. simpl in W1.
+  assert (C1 : In s (clients y1)) by (apply (row_client s y1 y R1); auto).
+  simpl. destruct (do_close hm s y1) as [y2 o2] eqn:E.
+  pose proof (cfold_frame hm s l2 N2 y2 (o1 ++ o2)) as R2.
+  split; intros B; rewrite <- (row_buf s y1 y R1) in B.
+  - destruct (do_close_now hm s y1 y2 o2 W1 C1 B E) as (-> & W2 & N). split.
+    + apply cfold_out_mono. apply in_or_app. simpl. auto.
+    + intro Q. apply N. apply (row_client s _ y2 R2). auto.
+  - destruct (do_close_defers hm s y1 y2 o2 W1 C1 B E) as (-> & W2 & Ec & Q & _). split.
+    + apply (row_client s _ y2 R2). rewrite Ec. auto.
+    + apply (row_closeq s _ y2 R2). auto.
+Qed.
+
+Theorem close_all_spec hm h : NoDup (accepted h) ->
+  let x := fst (run hm h) in
+  let r := step hm x SCloseAll in
+  lis (fst r) = false /\
+  (forall s, In s (clients x) -> bget s (bufs x) = [] ->
+             In (OEv (EDisconnect s)) (snd r) /\ no_state s (fst r)) /\
+  (forall s, In s (clients x) -> bget s (bufs x) <> [] -> In s (clients (fst r)) /\ In s (closeq (fst r))) /\
+  (forall s, In s (clients (fst r)) -> In s (clients x)) /\
+  In (OSrv VClosed) (snd r) /\ (In (OSrv VListenDown) (snd r) <-> lis x = true).
+Proof.
+  intros ND x r. pose proof (I_wf _ _ _ _ (Inv_run hm h ND)) as W. fold x in W.
+  assert (W0 : wf (set_lis false x)) by (destruct W; constructor; auto).
+  assert (NC : NoDup (clients x)) by (destruct W; auto).
+  unfold r. cbn [step]. unfold close_all, close_each. fold (cfold hm).
+  destruct (fold_left (cfold hm) (clients x) (set_lis false x, [])) as [x2 o2] eqn:F. simpl.
+  pose proof (cfold_lis hm (clients x) (set_lis false x) []) as L. rewrite F in L. simpl in L.
+  pose proof (cfold_wf hm (clients x) (set_lis false x) [] W0) as W2. rewrite F in W2. simpl in W2.
+  split; [exact L|]. split; [|split; [|split; [|split]]].
+  - intros s C B. pose proof (cfold_member hm s (clients x) NC C (set_lis false x) [] W0 C) as M.
+    cbv zeta in M. rewrite F in M. simpl in M. destruct M as [M _]. destruct (M B) as [M1 M2]. split.
+    + apply in_or_app. right. apply in_or_app. auto.
+    + apply wf_nostate; auto.
+  - intros s C B. pose proof (cfold_member hm s (clients x) NC C (set_lis false x) [] W0 C) as M.
+    cbv zeta in M. rewrite F in M. simpl in M. destruct M as [_ M]. apply M. auto.
+  - intros s C2. destruct (in_dec Nat.eq_dec s (clients x)) as [I|N]; auto. exfalso.
+    pose proof (cfold_frame hm s (clients x) N (set_lis false x) []) as R. rewrite F in R. simpl in R.
+    apply N. apply (row_client s x2 (set_lis false x) R) in C2. exact C2.
+  - apply in_or_app. right. apply in_or_app. right. simpl. auto.
+  - split.
+    + intros Q. apply in_app_or in Q. destruct Q as [Q|Q].
+      * destruct (lis x); auto; contradiction.
+      * exfalso. apply in_app_or in Q. destruct Q as [Q|[Q|[]]]; [|discriminate].
+        (* do_close only emits socket events *)
+        assert (S : forall l y oy, (forall e, In e oy -> e <> OSrv VListenDown) ->
+                    forall e, In e (snd (fold_left (cfold hm) l (y, oy))) -> e <> OSrv VListenDown).
+        { clear. induction l as [|a l IH]; intros y oy H e I; simpl in *; auto.
+          destruct (do_close hm a y) as [y' o'] eqn:E. apply (IH y' (oy ++ o')); auto.
+          intros e' I'. apply in_app_or in I'. destruct I' as [I'|I']; auto.
+          unfold do_close in E. destruct (negb (mem a (clients y))); [injection E as <- <-; contradiction|].
+          cbv zeta in E. destruct (isnil _).
+          - unfold do__close in E. destruct (negb _); injection E as <- <-; simpl in I'; [contradiction|].
+            destruct I' as [<-|[]]. discriminate.
+          - destruct (mem _ _); injection E as <- <-; contradiction. }
+        apply (S (clients x) (set_lis false x) [] (fun e I => match I with end) (OSrv VListenDown)); auto.
+        rewrite F. exact Q.
+    + intros ->. simpl. auto.
 Qed.
